@@ -20,7 +20,7 @@ from vlib.tr_filter import tr_filter
 from vlib.tr_wrapper import tr_wrapper
 from vlib.tr_output import tr_output
 from vlib.syslevel import build_prod, per_call, call_line, run_many
-from vlib.filt import AREA, UIDS, build_impl, alphabet, chains_upto, random_chain, boundary_chains, measure_singles, parse_elems, table_of, run_script_as, stage_tools, shrink_list, FAST_ASAN
+from vlib.filt import AREA, UIDS, build_impl, alphabet, chains_upto, random_chain, boundary_chains, measure_singles, probe, parse_elems, table_of, run_script_as, stage_tools, shrink_list, FAST_ASAN
 
 SINKS = ["sink\tfile\tout\t@D@/out.log", "sink\tpipe\tso\t1", "sink\tpipe\tse\t2", "sink\tdgram\tsock\t@D@/s.sock",
          "sink\tdevlog\tdevlog\t@D@/devlog.sock", "sink\ttty\ttty"]
@@ -202,10 +202,12 @@ def beyond_cases(fc):
 
 
 # ------------------------------------------------------------------------------------------------ end to end
-def e2e(run, exe, fc, alpha, tier, rng):
+def e2e(run, exe, fc, alpha, tier, rng, pty_ok=True):
     lib = build_prod(run)
     stage_tools(run)
     states = [(0, 0), (0, 1), (1000, 1), (65534, 0), (1000, 0), (4294967294, 1)] if tier == "quick" else [(u, t) for u in UIDS + [1000] for t in (0, 1)]
+    if not pty_ok:
+        states = [(u, 0) for (u, t) in states if t == 0] + [(u, 0) for (u, t) in states if t == 1 and (u, 0) not in states]
     pairs_ch = chains_upto(alpha, 2)
     procs = []
     for i, (u, t) in enumerate(states):
@@ -216,7 +218,7 @@ def e2e(run, exe, fc, alpha, tier, rng):
         procs.append({"uid": u, "tty": t, "out": oname, "oarg": oarg, "sink": sink, "chains": chains, "extra": b"", "fmt": b"%{cmdline}"})
     long_arg = b"y" * 400       # with error logging on, the message overflow is reported through the error handler
     # error logging on, a failing data source and a message that overflows its limit (error handler): a dropped call must stay silent all the same
-    for (u, t, o) in ([(1000, 0, 0)] if tier == "quick" else [(1000, 0, 0), (0, 1, 4), (65534, 0, 3)]):
+    for (u, t, o) in ([(1000, 0, 0)] if tier == "quick" else [(1000, 0, 0), (0, 1 if pty_ok else 0, 4), (65534, 0, 3)]):
         oname, oarg, sink = OUTS[o]
         procs.append({"uid": u, "tty": t, "out": oname, "oarg": oarg, "sink": sink, "chains": list(pairs_ch),
                       "extra": b"error_logging = yes\nlog_message_max_length = 255\n", "fmt": b"%{cmdline} %{nosuchdatasource:x}"})
@@ -305,6 +307,10 @@ def check(run):
     alpha = alphabet(1000, anc)
     limit = min(fc["ini_max_line"], 4096)
     states = states_for(run.tier)
+    _, pty_ok = probe(run, exe)
+    if not pty_ok:
+        run.notes.append("no pty available: states with a terminal on stdin were left out")
+        states = [st for st in states if st[2] == 0]
     # ---- stream 1: corpus + exhaustive small chains in every state
     corp = corpus_pairs()
     small = chains_upto(alpha, 2 if run.tier == "quick" else 3)
@@ -312,7 +318,7 @@ def check(run):
     nrand = 3000 if run.tier == "quick" else 25000
     gen += [(rng.choice(states), random_chain(rng, alpha, limit, wild=True)) for _ in range(nrand)]
     bnd = boundary_chains(limit, 1000, 1001)
-    gen += [(st, c) for st in ((1000, 7, 0), (0, 1000, 1)) for c in bnd]
+    gen += [(st, c) for st in ((1000, 7, 0), (0, 1000, 1 if pty_ok else 0)) for c in bnd]
     # a smoke stage first: when the implementation faults on a large share of it the full stream is pointless (and slow)
     pairs = corp + gen[:: max(1, len(gen) // 300)]
     lines, singles, el = chain_cases(run, exe, pairs, "smoke")
@@ -338,7 +344,7 @@ def check(run):
     res2 = corr_stream(run, AREA, exe, bc, stream="beyond", impl_env=FAST_ASAN)
     nv2, mism2 = classify(run, res2, bc, "beyond", in_domain=False)
     # ---- end to end
-    ee = e2e(run, exe, fc, alpha, run.tier, rng) if not crashed else {"calls": 0, "processes": 0, "skipped": True}
+    ee = e2e(run, exe, fc, alpha, run.tier, rng, pty_ok) if not crashed else {"calls": 0, "processes": 0, "skipped": True}
     nv_total = len(run.violations)
     if not ok and nv_total == 0:
         run.violation("proof:%s" % failed, "proof", "proof obligation no longer checks: %s\n%s" % (failed, log[-1500:]), {"theorem": failed, "coq_log": log[-3000:]})
